@@ -87,6 +87,7 @@ def counter_model(ob, col):
 def run_check(prop: str, tier: str, seed: int, only=None):
     t0 = time.time()
     load_contracts()
+    os.environ["VERIF_TIER"] = tier
     res = generate(prop, only)
     col = res.collector
     timeout_ms = 10000 if tier == "quick" else 60000
